@@ -116,12 +116,13 @@ pub fn shape_class(op: &OpKind, dims: &[&[usize]]) -> String {
         Conv { sr, sc } => {
             let n = dims[0].len();
             let batch: usize = dims[0][..n - 3].iter().product();
-            let (fr, fc) = (dims[1][2], dims[1][3]);
+            let f = dims[1].len();
+            let (fr, fc) = (dims[1][f - 2], dims[1][f - 1]);
             format!(
                 "batch={},overlap={},count={}",
                 if n == 3 { "absent".to_string() } else if batch == 1 { "1".into() } else { format!(">1(rank{})", n - 3) },
                 (fr > *sr && dims[0][n - 2] > fr) || (fc > *sc && dims[0][n - 1] > fc),
-                if dims[1][0] > 1 { ">1" } else { "1" }
+                if f == 3 { "absent" } else if dims[1][0] > 1 { ">1" } else { "1" }
             )
         }
         Sum(k) => format!("rank={},lead-nonunit={}", dims[0].len(), dims[0][..dims[0].len().saturating_sub(*k)].iter().any(|d| *d > 1)),
@@ -167,7 +168,8 @@ pub fn fwd_nontrivial(op: &OpKind, dims: &[&[usize]], out: &[usize]) -> bool {
         }
         Conv { .. } => {
             let n = out.len();
-            out[n - 1] * out[n - 2] > 1 && dims[1][1] * dims[1][2] * dims[1][3] > 1
+            let f = dims[1].len();
+            out[n - 1] * out[n - 2] > 1 && dims[1][f - 3] * dims[1][f - 2] * dims[1][f - 1] > 1
         }
         Sum(k) => *k >= 1 && numel(&dims[0][dims[0].len() - k..]) > 1,
         Reshape(d) => &d[..] != dims[0],
